@@ -192,7 +192,8 @@ C06_Clause(c, aux, o) ==
     CASE c = "gate" ->       \* nothing defective reaches the application / administrative callback
             (live /\ Defective(o, m) /\ m.t # "A") =>
                 /\ pre.stash = {} => Froms(o) = <<>>
-                /\ m.seqc = "ok" => \A i \in DOMAIN Froms(o) : Froms(o)[i].seq # m.seq \/ Froms(o)[i].t # m.t
+                \* (a kept, well-formed message of the same number and type may be delivered from the stash in this step)
+                /\ (m.seqc = "ok" /\ m.seq \notin pre.stash) => \A i \in DOMAIN Froms(o) : Froms(o)[i].seq # m.seq \/ Froms(o)[i].t # m.t
       [] c = "logonGate" ->  \* a Logon establishes the session only if it passes the checks
             (IsIn(o) /\ m.t = "A" /\ pre.st = "logon" /\ Defective(o, m)) =>
                 /\ o.post.st \notin LoggedOnSt
